@@ -435,6 +435,12 @@ def worker(arg):
             if root is None or root.axiom != "Tuple not found":
                 viols.append((K("explain:non-member-explained"), "explain %s (not in the result) does not answer 'Tuple not found': %r\n%s" % (
                     q, (root.axiom if root is not None else None), text)))
+        # souffle builds proofs from minimal-level subproofs, so no proof is higher than the total number of fixpoint rounds (plus one
+        # level per stratum); a proof still cut off at depth 40 although the model needs far fewer rounds is circular
+        height_bound = sum(v for v in ev.rounds.values()) + len(ev.rounds) + 2
+        if chk.cutoffs and height_bound < 38:
+            viols.append((K("explain:proof-deeper-than-any-derivation"), "[%s] %d proof branches were still open at depth 40 although the least model needs only %d rounds over all strata (a circular proof?)\n%s" % (
+                cname, chk.cutoffs, height_bound, text)))
         c = rec["counts"]
         for k, v in (("proofs_checked", len(members)), ("proof_nodes", chk.nodes), ("proof_nodes_strongly_checked", chk.strong_nodes),
                      ("proofs_depth_ge2", deep), ("depth_cutoffs", chk.cutoffs), ("nodes_not_interpretable", chk.unchecked), ("non_members_asked", len(non))):
